@@ -292,6 +292,9 @@ def _verdict(line, out):
     name = {"U": "uncorrupted", "N": "no-crc", "B": "bit", "V": "crc-value", "W": "window", "S": "straddle"}.get(cls, cls)
     if out in ("PANIC", "ABORT", "CRASH") or out is None:
         return True, name + ":PANIC", "the receive path panics on corrupted input"
+    if out.startswith("OK V U "):
+        return True, name + ":UNSTABLE", ("the CRC check is not a check: asked three times about the same decoded bundle it changes its answer "
+                                          "or changes the bundle (a corrupted block must stay rejected, and stay as received)")
     if cls in ("U", "N"):
         r = _parse_out(out) if out.startswith("OK ") else None
         if r is None:
